@@ -66,6 +66,15 @@ pub fn lowdim_area_unreliable(c: &Case) -> bool {
     c.dim < 3 && U * c.scale_l() > 1e-6
 }
 
+/// The same known finding seen from one cell: the error of a 1D / 2D face area was measured to
+/// grow as about 3e-3 (u L kappa)^2, kappa being the conditioning of the cell's worst vertex (a 2D
+/// cell with a vertex of kappa 5e5: 6e-7 at L = 2^28, 1e-5 at 2^30, 6.5e-4 at 2^33, 4e-2 at 2^36,
+/// although the vertices themselves are right to u L kappa). Areas of such a cell are not
+/// compared once u L kappa exceeds 1e-5 (error bound 3e-13).
+pub fn lowdim_area_unreliable_cell(c: &Case, kappa: f64) -> bool {
+    c.dim < 3 && U * c.scale_l() * kappa.min(KAPPA_CAP) > 1e-5
+}
+
 /// Distance of two positions for the purpose of "equal up to rounding": measured in the active
 /// subspace. Along the unused axes of a 1D / 2D tessellation the library works in a slab of unit
 /// thickness, so rounding there is of order u (absolute), unrelated to the scale L of the active
